@@ -4,7 +4,8 @@ import (
 	"bytes"
 	"encoding/json"
 	"fmt"
-	"math"
+	"io"
+	"math/big"
 	"strconv"
 	"time"
 
@@ -24,17 +25,14 @@ func ParseJWT(data []byte) (*JWT, error) {
 		return nil, fmt.Errorf("expected 3 parts, got %d", len(parts))
 	}
 
-	jwt := JWT{
-		Header:  make(map[string]any),
-		Payload: make(map[string]any),
-	}
+	var jwt JWT
 
 	hdr, err := util.DecodeAnyBase64(parts[0])
 	if err != nil {
 		return nil, fmt.Errorf("util.DecodeAnyBase64(header): %w", err)
 	}
-	if err = json.Unmarshal(hdr, &jwt.Header); err != nil {
-		return nil, fmt.Errorf("json.Unmarshal(header): %w", err)
+	if jwt.Header, err = unmarshalObject(hdr); err != nil {
+		return nil, fmt.Errorf("unmarshalObject(header): %w", err)
 	}
 	if jwt.Header == nil {
 		// JSON null unmarshals into a map without error
@@ -45,8 +43,8 @@ func ParseJWT(data []byte) (*JWT, error) {
 	if err != nil {
 		return nil, fmt.Errorf("util.DecodeAnyBase64(payload): %w", err)
 	}
-	if err = json.Unmarshal(payload, &jwt.Payload); err != nil {
-		return nil, fmt.Errorf("json.Unmarshal(header): %w", err)
+	if jwt.Payload, err = unmarshalObject(payload); err != nil {
+		return nil, fmt.Errorf("unmarshalObject(payload): %w", err)
 	}
 	if jwt.Payload == nil {
 		return nil, fmt.Errorf("payload is not a JSON object")
@@ -58,6 +56,21 @@ func ParseJWT(data []byte) (*JWT, error) {
 	}
 
 	return &jwt, nil
+}
+
+// unmarshalObject reads exactly one JSON object. Numbers are kept as their text: json.Unmarshal turns them into float64
+// and fails on a number outside its range (1e999), which is a JSON number all the same.
+func unmarshalObject(b []byte) (map[string]any, error) {
+	dec := json.NewDecoder(bytes.NewReader(b))
+	dec.UseNumber()
+	var m map[string]any
+	if err := dec.Decode(&m); err != nil {
+		return nil, err
+	}
+	if _, err := dec.Token(); err != io.EOF {
+		return nil, fmt.Errorf("data after the JSON value")
+	}
+	return m, nil
 }
 
 // HeaderAttributes lists the registered header parameters of the header, and registered claims replicated there
@@ -162,16 +175,24 @@ func str(o any) (string, bool) {
 	return s, ok
 }
 
+// maxNumericDate bounds the seconds that are shown as a date: time.Time holds every such instant without wrapping.
+const maxNumericDate = 1 << 62
+
 func unixTime(o any) (string, bool) {
 	switch v := o.(type) {
 	case string:
-		if i, err := strconv.Atoi(v); err == nil {
-			return time.Unix(int64(i), 0).UTC().Format("2006-01-02 15:04:05"), true
+		// some issuers quote their dates; any other string is shown as it stands
+		if i, err := strconv.ParseInt(v, 10, 64); err == nil && -maxNumericDate < i && i < maxNumericDate {
+			return time.Unix(i, 0).UTC().Format("2006-01-02 15:04:05"), true
 		}
-	case float64:
-		// RFC 7519 NumericDate: a JSON number of seconds since the epoch, possibly with a fraction
-		if sec := math.Floor(v); math.Abs(sec) < 1<<53 {
-			return time.Unix(int64(sec), 0).UTC().Format("2006-01-02 15:04:05"), true
+		return v, true
+	case json.Number:
+		// RFC 7519 NumericDate: a JSON number of seconds since the epoch, possibly with a fraction or an exponent
+		if r, ok := new(big.Rat).SetString(string(v)); ok {
+			sec := new(big.Int).Div(r.Num(), r.Denom()) // the denominator is positive: Euclidean division is the floor
+			if sec.IsInt64() && -maxNumericDate < sec.Int64() && sec.Int64() < maxNumericDate {
+				return time.Unix(sec.Int64(), 0).UTC().Format("2006-01-02 15:04:05"), true
+			}
 		}
 	}
 	return "", false
